@@ -154,6 +154,7 @@ class Interp:
         self.depth = 0
         self.cur_func = None
         self.stats = {'inlined': 0, 'uf': 0, 'opaque': 0}
+        self.key_info = {}     # heap key -> (object atom, attribute) for initial values
 
     # ------------------------------------------------------------------
     # Int helpers
@@ -914,12 +915,72 @@ class Interp:
             m = ci.find_method(attr)
             if m is not None:
                 return ('bound', obj, m)
+        self.key_info[key] = (obj, attr)
         if key in st.heap:
             return st.heap[key]
         pv = self.policy.attr(self, obj, attr, st)
         if pv is not None:
             return pv
         raise Unsupported('attribute %s of object %s:%s' % (attr, path, clsname))
+
+    # -- maps (dict / list attributes addressed with enum or small integer keys) ------------
+    def map_keys(self, keyv, st):
+        """[(cond, key string)] for a key value (enum members, constants, small symbolic ints)."""
+        B = self.B
+        out = []
+        for c, p in keyv.cases:
+            if B.AND(c, st.cond) == 0:
+                continue
+            if isinstance(p, tuple) and p and p[0] == 'enum':
+                out.append((c, '%s.%s' % (p[1], p[2])))
+            elif isinstance(p, Int):
+                k = self.cval(p)
+                if k is not None:
+                    out.append((c, str(k)))
+                elif not p.signed and len(p.bits) <= 5:
+                    for k in range(1 << len(p.bits)):
+                        ck = B.AND(c, self.i_eq(p, self.const(k)))
+                        if B.AND(ck, st.cond) != 0:
+                            out.append((ck, str(k)))
+                else:
+                    raise Unsupported('map key too wide to enumerate')
+            elif isinstance(p, tuple) and p and p[0] == 'str':
+                out.append((c, repr(p[1])))
+            else:
+                raise Unsupported('map key %r' % (p,))
+        return out
+
+    def map_read(self, m, keyv, st):
+        B = self.B
+        path = m[1]
+        out = []
+        for c, k in self.map_keys(keyv, st):
+            key = '%s[%s]' % (path, k)
+            self.key_info[key] = (m, '[%s]' % k)
+            v = st.heap.get(key)
+            if v is None:
+                v = self.policy.attr(self, m, '[%s]' % k, st)
+                if v is None:
+                    raise Unsupported('no initial value for %s' % key)
+            for cc, pp in v.cases:
+                out.append((B.AND(c, cc), pp))
+        return Value(self.coalesce(out))
+
+    def map_write(self, m, keyv, v, st, node):
+        path = m[1]
+        for c, k in self.map_keys(keyv, st):
+            key = '%s[%s]' % (path, k)
+            self.key_info[key] = (m, '[%s]' % k)
+            old = st.heap.get(key)
+            if c == 1 or self.B.AND(st.cond, self.B.NOT(c)) == 0:
+                st.heap[key] = v
+            else:
+                if old is None:
+                    old = self.policy.attr(self, m, '[%s]' % k, st)
+                    if old is None:
+                        raise Unsupported('no initial value for %s' % key)
+                st.heap[key] = self.v_ite(c, v, old)
+            self.on_store(m, '[%s]' % k, v, st, node)
 
     def subscript(self, e, st):
         B = self.B
@@ -935,6 +996,13 @@ class Interp:
             item = self.slice_value(sl, st)
             v, _ = self.inline(gi, [V(single), item], {}, st, e)
             return v
+        if isinstance(single, tuple) and single and single[0] == 'map':
+            return self.map_read(single, self._eval(sl, st), st)
+        if isinstance(single, tuple) and single and single[0] == 'objlist':
+            out = []
+            for c, k in self.map_keys(self._eval(sl, st), st):
+                out.append((c, ('obj', '%s[%s]' % (single[1], k), single[2])))
+            return Value(self.coalesce(out))
         if isinstance(single, tuple) and single and single[0] == 'dict':
             key = self._eval(sl, st)
             out = []
@@ -1191,14 +1259,13 @@ class Interp:
         return out
 
     def heap_default(self, key, st):
-        # key is "path.attr": ask the policy for the initial value
-        path, _, attr = key.rpartition('.')
-        pv = self.policy.attr(self, ('obj', path, self.obj_classes.get(path, '?')), attr, State(1, {}, {}))
+        info = self.key_info.get(key)
+        if info is None:
+            raise Unsupported('no initial value for %s' % key)
+        pv = self.policy.attr(self, info[0], info[1], State(1, {}, {}))
         if pv is None:
             raise Unsupported('no initial value for %s' % key)
         return pv if isinstance(pv, Value) else V(pv)
-
-    obj_classes = {}
 
     # ------------------------------------------------------------------
     # statements
@@ -1390,6 +1457,23 @@ class Interp:
                 item = self.slice_value(target.slice, st)
                 self.inline(si, [V(p), item, v], {}, st, node)
                 return
+            if isinstance(p, tuple) and p and p[0] == 'map':
+                self.map_write(p, self.eval(target.slice, st), v, st, node)
+                return
+            if isinstance(p, Tup):
+                k = self.const_of(self.eval(target.slice, st), st.cond)
+                if k is not None and 0 <= k < len(p.items):
+                    items = list(p.items)
+                    items[k] = v
+                    self.assign(target.value, V(Tup(items)), st, node)
+                    return
+                keyv = self.eval(target.slice, st)
+                ii = self.as_int(keyv, st.cond, 'index')
+                items = []
+                for k, old in enumerate(p.items):
+                    items.append(self.v_ite(self.i_eq(ii, self.const(k)), v, old))
+                self.assign(target.value, V(Tup(items)), st, node)
+                return
             raise AnalysisError('item store outside the idiom: `%s`' % ast.unparse(target)[:60])
         raise AnalysisError('assignment target outside the idiom')
 
@@ -1402,7 +1486,7 @@ class Interp:
             if s is not None:
                 self.inline(s, [V(obj), v], {}, st, node)
                 return
-        self.obj_classes[path] = clsname
+        self.key_info[path + '.' + attr] = (obj, attr)
         self.on_store(obj, attr, v, st, node)
         st.heap[path + '.' + attr] = v
 
